@@ -144,6 +144,81 @@ static double call2(double a, double b, int ni, int ng, double * x, void * p)
   return decay0_dgmlt2(mono1, a, b, ni, ng, x, p);
 }
 
+// ---------------------------------------------------------------- nested panels (iterated integrals, as the library's window ratios use them)
+struct NestPar
+{
+  int a, b, c;          // exponents of x, y, z
+  double lo[3], hi[3];
+  int ni[3], ng[3];
+  int order[3];         // which routine at each depth: 1 = dgmlt1, 2 = dgmlt2
+  double x, y;          // current outer abscissae
+};
+static void nest_inner(int n, const double * u, double * f, double *, void * params)
+{
+  NestPar * p = (NestPar *)params;
+  for (int i = 0; i < n; i++) f[i] = std::pow(p->x, p->a) * std::pow(p->y, p->b) * std::pow(u[i], p->c);
+}
+static double nest_call(int depth, fsub1_type f, NestPar * p)
+{
+  double X[2] = {0, 0};
+  return p->order[depth] == 1 ? decay0_dgmlt1(f, p->lo[depth], p->hi[depth], p->ni[depth], p->ng[depth], X, p)
+                              : decay0_dgmlt2(f, p->lo[depth], p->hi[depth], p->ni[depth], p->ng[depth], X, p);
+}
+static void nest_mid(int n, const double * u, double * f, double *, void * params)
+{
+  NestPar * p = (NestPar *)params;
+  for (int i = 0; i < n; i++) {
+    p->y = u[i];
+    f[i] = nest_call(2, nest_inner, p);
+  }
+}
+static void nest_outer(int n, const double * u, double * f, double *, void * params)
+{
+  NestPar * p = (NestPar *)params;
+  for (int i = 0; i < n; i++) {
+    p->x = u[i];
+    f[i] = nest_call(1, nest_mid, p);
+  }
+}
+static void nested_group(Group & g, verif::Rng & rng, int ncases)
+{
+  // the integrand of a panel routine may itself call a panel routine (the same one included): each call owns its work arrays
+  static const int ORD[][3] = {{1, 2, 1}, {1, 1, 1}, {2, 2, 2}, {2, 1, 2}, {1, 2, 2}, {1, 1, 2}};
+  for (int i = 0; i < ncases; i++) {
+    NestPar p;
+    const int * o = ORD[i % 6];
+    for (int d = 0; d < 3; d++) {
+      p.order[d] = o[d];
+      p.ng[d] = (rng.below(2) == 0) ? 6 : 8;
+      p.ni[d] = 1 + (int)rng.below(3);
+      p.lo[d] = -1 + 2 * rng.uniform();
+      p.hi[d] = p.lo[d] + 0.3 + 2 * rng.uniform();
+    }
+    p.a = (int)rng.below(2 * p.ng[0]);
+    p.b = (int)rng.below(2 * p.ng[1]);
+    p.c = (int)rng.below(2 * p.ng[2]);
+    p.x = p.y = 0;
+    double r = nest_call(0, nest_outer, &p);
+    long double ex = (long double)exact_mono(p.a, p.lo[0], p.hi[0]) * (long double)exact_mono(p.b, p.lo[1], p.hi[1]) * (long double)exact_mono(p.c, p.lo[2], p.hi[2]);
+    long double sc = 0; // scale: the product of the integrals of |x|^a etc. bounds the magnitude the roundoff refers to
+    {
+      auto absint = [](int k, double lo, double hi) {
+        long double m = std::max(std::fabs(lo), std::fabs(hi));
+        return powl(m, k) * (long double)(hi - lo);
+      };
+      sc = absint(p.a, p.lo[0], p.hi[0]) * absint(p.b, p.lo[1], p.hi[1]) * absint(p.c, p.lo[2], p.hi[2]);
+    }
+    double err = (double)(fabsl((long double)r - ex) / (sc > 0 ? sc : 1));
+    g.n++;
+    g.distinct.insert(fmt("%d%d%d/ng%d%d%d", o[0], o[1], o[2], p.ng[0], p.ng[1], p.ng[2]));
+    if (err > g.maxerr) g.maxerr = err;
+    if (!(err <= 1e-12))
+      g.fail(fmt("nested|%d%d%d", o[0], o[1], o[2]),
+             fmt("iterated integral of x^%d y^%d z^%d through dgmlt%d -> dgmlt%d -> dgmlt%d (NG %d %d %d, NI %d %d %d): got %.15g, exact %.15Lg (error %.3g of the scale)", p.a, p.b, p.c, o[0], o[1],
+                 o[2], p.ng[0], p.ng[1], p.ng[2], p.ni[0], p.ni[1], p.ni[2], r, ex, err));
+  }
+}
+
 // ---------------------------------------------------------------- gauss
 // interposed gsl_integration_qng statuses are not needed here: we run QNG ourselves to learn
 // whether the first attempt missed its tolerance (same library routine, same arguments).
@@ -202,7 +277,7 @@ static void gauss_group(Group & g, verif::Rng & rng, int ncases)
     double lo = -1 + 2 * rng.uniform();
     double hi = lo + 0.2 + 2.5 * rng.uniform();
     if (p.kind == 5) { lo = std::fabs(lo); hi = lo + 0.2 + 2.5 * rng.uniform(); }
-    if (p.kind == 6) p.a = 4 + 40 * rng.uniform();
+    if (p.kind == 6) p.a = std::min(4 + 40 * rng.uniform(), 40.0 / (hi - lo)); // at most ~6 periods over the interval: resolved by the 43-point rule (see kind 7)
     if (p.kind == 7) {
       // a narrow peak, but one the rule can see: QNG is a fixed sequence of 10/21/43/87-point rules whose error estimate compares
       // successive rules; a peak much narrower than the spacing of the 21 nodes (about 1/20 of the interval) falls between the nodes of
@@ -376,7 +451,9 @@ static void tgold_group(Group & g, verif::Rng & rng, int ncases)
         g.distinct.insert(fmt("fine/k%d/mm%d/rel%g", p.kind, minmax, rel));
         if (err / eps > g.maxerr) g.maxerr = err / eps;
         if (!(err <= eps))
-          g.fail(fmt("tgold|fine|kind%d|minmax%d", p.kind, minmax),
+          // 3e-8 of the interval is where the 8-digit section ratio of the routine starts to show (about one request in 1e4 ends 1.1 eps
+          // off on the unchanged tree): from there on it is the recorded finding, above it a violation
+          g.fail(rel < 5e-8 ? std::string("tgold|ultrafine|single-precision-section-ratio") : fmt("tgold|fine|kind%d|minmax%d", p.kind, minmax),
                  fmt("kind %d x0=%.17g on [%.17g,%.17g] eps=%.3g (%g of the interval) minmax=%d: xextr=%.17g, %.3g eps away", p.kind, p.x0, a, c, eps, rel, minmax, xe, err / eps));
       }
     }
@@ -610,6 +687,9 @@ int main(int argc, char ** argv)
   }
   {
     Group g; g.name = "dgmlt2"; dgmlt_group(g, "dgmlt2", call2, rng, 4 * scale); g.emit();
+  }
+  {
+    Group g; g.name = "nested_panels"; nested_group(g, rng, 300 * scale); g.emit();
   }
   {
     Group g; g.name = "gauss"; gauss_group(g, rng, 120 * scale); g.emit();
